@@ -241,6 +241,20 @@ let predict (c : string) (obs : string) : string * string * bool =
                     | "x", _ -> "BAD:format-chosen-by-content-not-by-name"
                     | _, _ -> "BAD:missing-file-accepted") in
       ("r=" ^ expected, v, how <> "a")
+  | ["prv"; kind; _tok] ->
+      (* the ammo the provider hands out (harness/cmd/hC16/prv.go).  Whether the provider accepts the description and
+         how many ammo it yields is NOT modelled here (the y field is echoed); judged: both HCL renderings yield exactly
+         the ammo of the YAML one, or are refused as it is *)
+      let get = get_field obs in
+      let y = get "y=" in
+      let who = if kind = "g" then "grpc" else "http" in
+      let v =
+        if y = "panic" || y = "hang" || get "h=" = "panic" || get "hl=" = "panic" || get "h=" = "hang" || get "hl=" = "hang"
+        then "BAD:" ^ who ^ "-provider-panic-or-hang"
+        else if get "h=" <> "=" then "BAD:" ^ who ^ "-provider-ammo-of-hcl-differs-from-yaml"
+        else if get "hl=" <> "=" then "BAD:" ^ who ^ "-provider-ammo-of-hcl-with-locals-differs-from-yaml"
+        else "ok" in
+      (Printf.sprintf "y=%s h== hl==" y, v, y <> "err")
   | _ -> ("bad-case", "BAD:bad-case", false)
 
 let () = run_cases predict
